@@ -1,4 +1,5 @@
-CONSTANT Polys = {13, 25, 37}
+CONSTANT Polys = {13, 37, 61}
+CONSTANT AMax = 3
 SPECIFICATION Spec
 INVARIANT GroupLaw
 CHECK_DEADLOCK FALSE
